@@ -51,6 +51,9 @@ func modelCheck(prop string, x *Exec, c *Case) ([]Violation, *Result, []*MatchRe
 		if len(cs.Corrupt) > 0 {
 			viol = append(viol, Violation{Prop: prop, Rule: "retained-data-overwritten", Detail: cs.Corrupt[0], Sig: "retained " + firstWords(cs.Corrupt[0], 1)})
 		}
+		if len(cs.Incons) > 0 {
+			viol = append(viol, Violation{Prop: prop, Rule: "scan-not-repeatable", Detail: fmt.Sprintf("conn %d: %s", i, cs.Incons[0]), Sig: "scan-not-repeatable"})
+		}
 		intrusive := false
 		for _, f := range cs.cc.Faults {
 			// (an error reported by Close and a slow peer do not change what the
@@ -402,6 +405,107 @@ func checkC18Close(x *Exec, c *Case) ([]Violation, bool) {
 	return viol, nt
 }
 
+// genC09BigRowCancel: a row of 20-70 KB is on its way to a slow peer when the
+// session's context ends (a middleware-derived time limit). Whatever the
+// server does about the cancellation, what it has put on the wire stays a
+// sequence of complete messages.
+func genC09BigRowCancel(r *Rand) *Case {
+	c := &Case{Variant: "session-ends-during-row", Server: ServerCfg{Limit: 4096, MW: []MWSpec{{Cancel: true}}}, Programs: map[string]*Program{}}
+	cols := []ColSpec{{Name: "a", OID: pgwire.OIDText}, {Name: "b", OID: pgwire.OIDInt4}}
+	var ops []Op
+	for n := r.Range(1, 3); n > 0; n-- {
+		size := r.PickInt(10, 17000, 20000, 40000, 70000)
+		ops = append(ops, Op{K: "row", Row: []Val{{G: "string", S: r.Ident(size)}, {G: "int32", I: int64(n)}}})
+	}
+	ops = append(ops, Op{K: "complete", Tag: "BIG"})
+	c.Programs["big"] = &Program{Stmts: []*StmtProg{{Cols: cols, Ops: ops}}}
+	c.Programs["after"] = &Program{Stmts: []*StmtProg{{Cols: cols[:1], Ops: []Op{{K: "complete", Tag: "AFTER"}}}}}
+	msgs := []pgwire.FMsg{{K: "Q", S1: "big"}}
+	if r.Bool() {
+		msgs = []pgwire.FMsg{{K: "P", S1: "", S2: "big"}, {K: "B", RFmt: []int16{int16(r.Intn(2))}}, {K: "E"}, {K: "S"}}
+	}
+	steps := []Step{{Msgs: []pgwire.FMsg{startupMsg("u", "d")}}, {Msgs: msgs}, {Msgs: []pgwire.FMsg{{K: "Q", S1: "after"}}}}
+	// (writes 0-5 are the startup reply; the result follows)
+	c.Conns = []ConnCase{{Steps: steps, Faults: []Fault{{Kind: "write-cancel", At: r.Range(6, 14)}}}}
+	return c
+}
+
+func checkC09BigRowCancel(x *Exec, c *Case) ([]Violation, bool) {
+	r := x.Run(c)
+	cs := r.Conns[0]
+	t := ParseOut(cs)
+	viol := GrammarViolation("C09", 0, t)
+	viol = append(viol, connEnded("C09", 0, cs)...)
+	// every DataRow that did arrive carries the value that was written
+	for _, m := range t.Msgs {
+		if m.Type != 'D' || len(m.Row) == 0 || m.Row[0] == nil {
+			continue
+		}
+		ok := false
+		if p := c.Programs["big"]; p != nil {
+			for _, op := range p.Stmts[0].Ops {
+				if op.K == "row" && len(op.Row) > 0 && op.Row[0].S == string(m.Row[0]) {
+					ok = true
+				}
+			}
+		}
+		if !ok {
+			viol = append(viol, Violation{Prop: "C09", Rule: "wrong-content", Sig: "wrong-content big row", Detail: fmt.Sprintf("conn 0: a DataRow arrived whose first field (%d bytes) is none of the values the handler wrote", len(m.Row[0]))})
+			break
+		}
+	}
+	return viol, cs.FaultFired["write-cancel"] > 0
+}
+
+// genC07Cancel: the session's middleware-derived context ends while a portal
+// is being executed (the statement cancels it and lets time pass); the portal
+// and its statement stay defined: executing the portal again runs the
+// statement again, nobody closed anything.
+func genC07Cancel(r *Rand) *Case {
+	c := &Case{Variant: "session-cancelled-portal-reused", Server: ServerCfg{Limit: 4096, MW: []MWSpec{{Cancel: true}}, UserCaches: r.Chance(1, 4)}, Programs: map[string]*Program{}}
+	col := []ColSpec{{Name: "a", OID: pgwire.OIDText}}
+	c.Programs["x"] = &Program{Stmts: []*StmtProg{{Cols: col, Ops: []Op{{K: "cancel", Ms: r.PickInt(0, 1, 50, 6000)}, {K: "complete", Tag: "X"}}}}}
+	pn, sn := r.Pick("", "p1"), r.Pick("", "s1")
+	msgs := []pgwire.FMsg{{K: "P", S1: sn, S2: "x"}, {K: "B", S1: pn, S2: sn}, {K: "E", S1: pn}, {K: "S"}}
+	again := []pgwire.FMsg{{K: "E", S1: pn}, {K: "S"}}
+	if r.Bool() {
+		again = []pgwire.FMsg{{K: "B", S1: pn, S2: sn}, {K: "E", S1: pn}, {K: "S"}}
+	}
+	steps := []Step{{Msgs: []pgwire.FMsg{startupMsg("u", "d")}}}
+	if r.Bool() {
+		steps = append(steps, Step{Msgs: append(msgs, again...)})
+	} else {
+		steps = append(steps, Step{Msgs: msgs}, Step{Msgs: again})
+	}
+	c.Conns = []ConnCase{{Steps: steps, Cuts: genCuts(r)}}
+	return c
+}
+
+func checkC07Cancel(x *Exec, c *Case) ([]Violation, bool) {
+	r := x.Run(c)
+	cs := r.Conns[0]
+	t := ParseOut(cs)
+	viol := GrammarViolation("C07", 0, t)
+	kinds := ""
+	for _, m := range c.Conns[0].FlatMsgs() {
+		kinds += m.K
+	}
+	// (a shrunk case may leave the domain of this oracle)
+	if kinds != "startupPBESES" && kinds != "startupPBESBES" {
+		return viol, false
+	}
+	if cs.Closed > 0 && cs.ClosedBefore > 0 && strings.Count(pgwire.Kinds(t.Msgs), "Z") < 3 {
+		// the implementation ended the connection when its context ended: not
+		// this rule's business
+		return viol, false
+	}
+	if n := len(cs.EventsOf("stmt")); n != 2 {
+		viol = append(viol, Violation{Prop: "C07", Rule: "portal-vanished", Sig: "portal-vanished",
+			Detail: fmt.Sprintf("conn 0: the session context ended while the portal was executed; executing the portal again reached the statement function %d time(s) in total, want 2 - nobody closed the portal or its statement (server output %q)", n, pgwire.Kinds(t.Msgs))})
+	}
+	return viol, true
+}
+
 // genC06Panic: a statement function panics inside an extended-protocol
 // Execute; the library turns that into a failed Execute (one ErrorResponse,
 // discard until Sync) - the messages pipelined behind it must not run.
@@ -668,7 +772,7 @@ func init() {
 	// ------------------------------------------------------------------ C08
 	register(&Prop{
 		ID: "C08", Level: "exploration", QuickS: 25, ThoroughS: 420,
-		Rule:       "seeded extended-protocol histories over statements with 0-5 declared parameter types and typed columns: Bind messages with NULL / empty / NUL-containing / multi-KiB values, parameter-format lists of length 0, 1 and n, result-format lists of length 0, 1 and n, and 0-3 other messages (Describe, Parse of other names with long texts, simple queries, stray CopyData) between Bind and Execute; the statement function records count, Value(), Format() and Scan(declared oid) of every parameter; compared with the reference model and the independent codecs, including the RowDescription/DataRow formats of the portal and the ParameterDescription of the statement; 1 in 40 cases adds a $65535 statement bound with 65535/65534/32768 parameters under a 1 MiB limit; non-trivial = a statement function ran with at least one parameter; distinct = distinct case content hashes",
+		Rule:       "seeded extended-protocol histories over statements with 0-5 declared parameter types and typed columns: Bind messages with NULL / empty / NUL-containing / multi-KiB values, parameter-format lists of length 0, 1 and n, result-format lists of length 0, 1 and n, and 0-3 other messages (Describe, Parse of other names with long texts, simple queries, stray CopyData) between Bind and Execute; the statement function records count, Value(), Format() and Scan(declared oid) of every parameter; compared with the reference model and the independent codecs, including the RowDescription/DataRow formats of the portal and the ParameterDescription of the statement; 1 in 40 cases adds a $65535 statement bound with 65535/65534/32768 parameters under a 1 MiB limit; the scan op asks every parameter again with another OID and compares with a fresh parameter holding the same bytes; non-trivial = a statement function ran with at least one parameter; distinct = distinct case content hashes",
 		Components: e1Components, Assumptions: commonAssumptions,
 		Gen: func(r *Rand, tier string) *Case {
 			if r.Chance(1, 10) {
@@ -706,7 +810,7 @@ func init() {
 	// ------------------------------------------------------------------ C09
 	register(&Prop{
 		ID: "C09", Level: "exploration", QuickS: 25, ThoroughS: 420,
-		Rule:       "seeded sessions whose statements write rows over bool/int2/int4/int8/oid/float4/float8/text/varchar/bytea/uuid/date/timestamp/timestamptz/name/bpchar/json/jsonb columns with boundary and random values (min/max, +-0, NaN, +-Inf, empty and multi-byte strings, empty and NUL-containing bytea, zero UUID, text/bytea values of 4090-70000 bytes) in the Go representations a handler would use (native values, pointers, pgtype structs, and Go strings holding the text form of int4/int8/uuid values, which only the text format can encode), text format (simple protocol) and per-column text/binary result formats (extended protocol), SQL NULL written as untyped nil, typed nil pointer or invalid pgtype value in any position; the same OID is encoded from different Go types in varying order within a connection; every DataRow is decoded by the independent codecs; non-trivial = at least one DataRow was produced and decoded; distinct = distinct case content hashes",
+		Rule:       "seeded sessions whose statements write rows over bool/int2/int4/int8/oid/float4/float8/text/varchar/bytea/uuid/date/timestamp/timestamptz/name/bpchar/json/jsonb columns with boundary and random values (min/max, +-0, NaN, +-Inf, empty and multi-byte strings, empty and NUL-containing bytea, zero UUID, text/bytea values of 4090-70000 bytes) in the Go representations a handler would use (native values, pointers, pgtype structs, and Go strings holding the text form of int4/int8/uuid values, which only the text format can encode), text format (simple protocol) and per-column text/binary result formats (extended protocol), SQL NULL written as untyped nil, typed nil pointer or invalid pgtype value in any position; the same OID is encoded from different Go types in varying order within a connection; every DataRow is decoded by the independent codecs; variant: rows of 17-70 KB on their way out when the session's middleware-derived context ends (fault write-cancel): the wire stays a sequence of complete messages and every DataRow that arrives carries a value that was written; non-trivial = at least one DataRow was produced and decoded; distinct = distinct case content hashes",
 		Components: e1Components, Assumptions: commonAssumptions,
 		Gen: func(r *Rand, tier string) *Case {
 			if r.Chance(1, 10) {
@@ -714,12 +818,18 @@ func init() {
 				// same OIDs under seeded interleavings
 				return genConcurrent(r, r.Range(2, 3), histOpts{simple: true, extended: true, binary: true, rich: true, typedNull: true, multi: true, maxUnits: 4}, 4096)
 			}
+			if r.Chance(1, 40) {
+				return genC09BigRowCancel(r)
+			}
 			c := &Case{Server: ServerCfg{Limit: smallLimit(r)}}
 			r.Large = true
 			genHistory(r, c, histOpts{manyRows: true, simple: true, extended: true, binary: true, rich: true, docs: true, typedNull: true, multi: true, abuse: r.Chance(1, 3), maxUnits: units(tier, 6)})
 			return c
 		},
 		Check: func(x *Exec, c *Case) ([]Violation, bool) {
+			if c.Variant == "session-ends-during-row" {
+				return checkC09BigRowCancel(x, c)
+			}
 			if c.Sched != nil {
 				return checkConcurrent("C09", x, c, 2)
 			}
@@ -774,11 +884,20 @@ func init() {
 	})
 	// ------------------------------------------------------------------ C07
 	register(&Prop{
-		ID: "C07", Level: "exploration", QuickS: 25, ThoroughS: 420,
-		Rule:        "seeded histories of Parse/Bind/Describe/Execute/Close over a pool of 3 statement and 3 portal names (incl. the unnamed ones); every Parse carries a unique query text, parameter list and column set so that each later Describe/Execute is attributable to exactly one definition; judged against the per-connection two-map namespace model (statement current at Bind time, Bind's parameters and result formats, Close removes); E2 variant: 2-3 connections run such histories over the same names under seeded schedules and each must equal its own model run; a sixth of the histories contain a churn unit (20-260 Parse/Close cycles of one name, distinct live names, or Bind/Close of portals); non-trivial = a name was re-used (re-parsed / re-bound / closed) before a later use; distinct = distinct case content hashes",
+		ID: "C07", Level: "exploration", QuickS: 25, ThoroughS: 420, Race: true, RaceWorkers: 3,
+		RaceGen: func(r *Rand, tier string) *Case {
+			// the -race shard runs the concurrent sets only: state shared between
+			// connections without synchronisation is decided by happens-before,
+			// whatever the interleaving
+			return genConcurrent(r, r.Range(2, 4), histOpts{extended: true, closes: true, params: true, binary: true, unknownNames: true, maxUnits: units(tier, 6)}, 4096)
+		},
+		Rule:        "seeded histories of Parse/Bind/Describe/Execute/Close over a pool of 3 statement and 3 portal names (incl. the unnamed ones); every Parse carries a unique query text, parameter list and column set so that each later Describe/Execute is attributable to exactly one definition; judged against the per-connection two-map namespace model (statement current at Bind time, Bind's parameters and result formats, Close removes); E2 variant: 2-3 connections run such histories over the same names under seeded schedules and each must equal its own model run; a sixth of the histories contain a churn unit (20-260 Parse/Close cycles of one name, distinct live names, or Bind/Close of portals); variant: the session context ends while a portal is executed and the portal is used again (nobody closed it); the -race shard (3 workers) runs the concurrent sets; non-trivial = a name was re-used (re-parsed / re-bound / closed) before a later use; distinct = distinct case content hashes",
 		Components:  append(append([]string{}, e1Components...), "E2 share: seeded scheduler (harness/kernel.go) decides every interleaving of the connection goroutines at transport operations, callbacks and spliced schedule points"),
 		Assumptions: commonAssumptions,
 		Gen: func(r *Rand, tier string) *Case {
+			if r.Chance(1, 40) {
+				return genC07Cancel(r)
+			}
 			if r.Chance(1, 5) {
 				// E2 share: 2-4 connections run such histories over the same names
 				return genConcurrent(r, r.Range(2, 4), histOpts{extended: true, closes: true, params: true, binary: true, unknownNames: true, maxUnits: units(tier, 6)}, 4096)
@@ -814,6 +933,9 @@ func init() {
 			return c
 		},
 		Check: func(x *Exec, c *Case) ([]Violation, bool) {
+			if c.Variant == "session-cancelled-portal-reused" {
+				return checkC07Cancel(x, c)
+			}
 			if c.Sched != nil {
 				viol, _ := checkConcurrent("C07", x, c, 3)
 				return viol, nameReused(c)
